@@ -78,6 +78,10 @@ class _SecStream(Stream):
                 c["dirty"] = True
             cases.append(c)
 
+        # the all-zero key as the very FIRST use of the algorithms in the process (Go's zero value looks like "nothing loaded
+        # yet" to a cache), then again later in the stream
+        for alg in self.algs_main:
+            add(alg, draw_msg(rng, 11), "zero-key-first", draw_params(rng, 1), dirty=False)
         # every length 1..130 (all residues mod 4, 8, 16, 64) for both real algorithms
         reps = 1 if quick else 4
         for rep in range(reps):
